@@ -2026,6 +2026,37 @@ impl<C: BgpConfig + Send> Session<C> {
     }
 }
 
+// Verification hook (off unless built with --cfg nlnetlabs_routecore_verif).
+#[cfg(nlnetlabs_routecore_verif)]
+impl<C: BgpConfig + Send> Session<C> {
+    /// Forces the running flag of each timer (connect-retry, hold,
+    /// keepalive, delay-open), to enumerate transitions from any timer state.
+    pub fn verif_set_timers(
+        &mut self,
+        connect_retry: bool,
+        hold: bool,
+        keepalive: bool,
+        delay_open: bool,
+    ) {
+        for (t, on) in [
+            (&mut self.connect_retry_timer, connect_retry),
+            (&mut self.hold_timer, hold),
+            (&mut self.keepalive_timer, keepalive),
+            (&mut self.delay_open_timer, delay_open),
+        ] {
+            if on && !t.is_running() {
+                t.start();
+            } else if !on && t.is_running() {
+                t.stop_and_reset();
+            }
+        }
+    }
+    /// Detaches the TCP connection without any FSM action.
+    pub fn verif_take_connection(&mut self) -> Option<Connection> {
+        self.connection.take()
+    }
+}
+
 async fn maybe_read_frame(
     conn: Option<&mut Connection>,
 ) -> Option<Result<Option<BgpMsg<Bytes>>, Error>> {
